@@ -114,7 +114,7 @@ theorem C04 (L : Layout) (hL : NoAbs L) (x : Sys) (hx : ReachableEv L x) (k : Ke
       (pressPrep x.s k).active = x.s.active := ⟨rfl, rfl, rfl⟩
   generalize hs0 : pressPrep x.s k = s0 at *
   have hc1 : Clean (afterConsume s0 m) := ⟨hc0.abs, hc0.trig⟩
-  rw [addPhase2_clean k m hc1]
+  rw [addPhase2_clean k m hc1 (afterConsume_clear s0 m)]
   simp only [hact, if_true]
   -- the states along the way
   have c := consume_spec s0 m h0
